@@ -1017,12 +1017,21 @@ pub fn query_index<I: BinningIndex>(ix: &I) {
         (1, usize::MAX),
         (usize::MAX - 1, usize::MAX),
     ];
+    // a query sets one bit per bin of the region: skip regions that would be seconds of legitimate
+    // work for a deep geometry (depth 9 / 10 with a small min_shift)
+    let (ms, d) = (u32::from(ix.min_shift()), u32::from(ix.depth()));
+    let cheap = |a: usize, b: usize| ((b - a) as u128 >> ms.min(100)) <= (1 << 22);
+    let deep = d >= 8;
     for id in [0usize, 1, nref.saturating_sub(1), nref, usize::MAX] {
         for &(a, b) in regions {
-            dbg(&ix.query(id, (pos(a)..=pos(b)).into()));
+            if !deep || cheap(a, b) {
+                dbg(&ix.query(id, (pos(a)..=pos(b)).into()));
+            }
         }
-        dbg(&ix.query(id, (..).into()));
-        dbg(&ix.query(id, (pos(77)..).into()));
+        if !deep {
+            dbg(&ix.query(id, (..).into()));
+            dbg(&ix.query(id, (pos(77)..).into()));
+        }
     }
 }
 
